@@ -159,8 +159,27 @@ func partVal(g *hc.Gen, kind int) value.Primary {
 			return value.NewString(g.Pick("1.5", "2012-02-03", "2012-02-03 00:00:00"))
 		}
 		return value.NewInteger(int64(g.Intn(3)))
+	case 4: // the bucket rule of C04: equal values in different spellings and types share a partition
+		fam := spellings[g.Intn(len(spellings))]
+		return fam[g.Intn(len(fam))]
 	}
 	return value.NewInteger(int64(g.Intn(40))) // many small partitions
+}
+
+// families of values that are the same PARTITION BY key (C04: integer, else float, else datetime, else
+// boolean, else upper-cased trimmed text); different families are different keys — also 1 vs 1.0
+var spellings = [][]value.Primary{
+	{value.NewInteger(1), value.NewString("1"), value.NewString("01"), value.NewString("+1"), value.NewString(" 1 "), value.NewString("001"), value.NewBoolean(true), value.NewString("true"), value.NewString(" TRUE ")},
+	{value.NewInteger(2), value.NewString("2"), value.NewString("02"), value.NewString("+2"), value.NewString("002")},
+	{value.NewInteger(0), value.NewString("0"), value.NewString("00"), value.NewString("-0"), value.NewString("+0"), value.NewString("false"), value.NewBoolean(false)},
+	{value.NewInteger(-3), value.NewString("-3"), value.NewString("-03"), value.NewString(" -3")},
+	{value.NewFloat(1.0), value.NewString("1.0"), value.NewString("1e0"), value.NewString("1.00"), value.NewString(" 01.0 ")},
+	{value.NewFloat(0), value.NewString("0.0"), value.NewString("-0.0"), value.NewString("0e0")},
+	{value.NewFloat(2.5), value.NewString("2.5"), value.NewString("2.50"), value.NewString("25e-1"), value.NewString("+2.5")},
+	{value.NewString("abc"), value.NewString(" ABC "), value.NewString("Abc"), value.NewString("aBC\t")},
+	{value.NewString("x:y"), value.NewString("X:Y"), value.NewString(" x:y")},
+	{value.NewDatetime(time.Date(2012, 2, 3, 0, 0, 0, 0, time.UTC)), value.NewString("2012-02-03"), value.NewString("2012-02-03 00:00:00"), value.NewString("2012/02/03"), value.NewString("2012-02-03T00:00:00Z")},
+	{value.NewDatetime(time.Date(2012, 2, 3, 9, 18, 15, 0, time.UTC)), value.NewString("2012-02-03 09:18:15"), value.NewString("2012/2/3 9:18:15"), value.NewString("2012-02-03T09:18:15Z")},
 }
 
 func sortVal(g *hc.Gen, kind int) value.Primary {
@@ -604,7 +623,7 @@ func run(seed int64, n int, dir string, _ []string) {
 	witnessDone := false
 	for t := 0; t < tables; t++ {
 		nrows := []int{0, 1, 2, 3, 4, 5, 7, 9, 12, 16, 25, 40, 70, 120, 250, 400}[g.Intn(16)]
-		pkinds := [2]int{g.Intn(4), g.Intn(4)}
+		pkinds := [2]int{g.Intn(5), g.Intn(5)}
 		skinds := [2]int{g.Intn(nSortKinds), g.Intn(nSortKinds)}
 		akind := []int{aInts, aInts, aLetters, aMixed}[g.Intn(4)]
 		rows := make([][]value.Primary, nrows)
@@ -675,6 +694,8 @@ func run(seed int64, n int, dir string, _ []string) {
 			for d := 0; d < 3; d++ {
 				derivedCases(g, o, pr, rows, akind, cpu)
 			}
+			literalCaseCheck(g, o, pr, rows, cpu)
+			literalCaseCheck(g, o, pr, rows, cpu)
 		}
 		pr.DisposeTable("t")
 	}
@@ -1322,6 +1343,110 @@ func orderRobust(c caseSpec) bool {
 	return tieSafe[c.fn] || (insensitive && whole)
 }
 
+// mutateOne changes exactly one element of an analytic call: the direction or the NULLS position of an ORDER BY
+// item, the partition list, a frame bound, IGNORE NULLS, or an argument.  Returns what was changed ("" = nothing).
+func mutateOne(g *hc.Gen, c caseSpec, nrows, akind int) (caseSpec, string) {
+	e := c
+	e.items = append([]orderItem{}, c.items...)
+	e.pcols = append([]int{}, c.pcols...)
+	var keyItems []int
+	for i, it := range e.items {
+		if it.col >= 0 {
+			keyItems = append(keyItems, i)
+		}
+	}
+	switch g.Intn(7) {
+	case 0:
+		if len(keyItems) > 0 {
+			i := keyItems[g.Intn(len(keyItems))]
+			e.items[i].desc = !e.items[i].desc
+			return e, "direction"
+		}
+	case 1, 2:
+		if len(keyItems) > 0 {
+			i := keyItems[g.Intn(len(keyItems))]
+			switch e.items[i].np {
+			case "f":
+				e.items[i].np = "l"
+			case "l":
+				e.items[i].np = "f"
+			default:
+				e.items[i].np = g.Pick("f", "l")
+			}
+			return e, "nulls-position"
+		}
+	case 3:
+		switch len(e.pcols) {
+		case 0:
+			e.pcols = []int{cP1 + g.Intn(2)}
+		case 1:
+			if g.Intn(2) == 0 {
+				e.pcols = []int{cP1 + cP2 - e.pcols[0]}
+			} else {
+				e.pcols = append(e.pcols, cP1+cP2-e.pcols[0])
+			}
+		default:
+			e.pcols = e.pcols[:1]
+		}
+		return e, "partition-list"
+	case 4:
+		if c.w.form == "b" || c.w.form == "r" {
+			b := &e.w.lo
+			if c.w.form == "b" && g.Intn(2) == 0 {
+				b = &e.w.hi
+			}
+			switch b.kind {
+			case "p", "f":
+				b.n = b.n + 1
+			case "c":
+				*b = bound{kind: "p", n: 1}
+				if b == &e.w.hi {
+					*b = bound{kind: "f", n: 1}
+				}
+			case "up":
+				*b = bound{kind: "p", n: 1}
+			case "uf":
+				*b = bound{kind: "f", n: 1}
+			}
+			return e, "frame-bound"
+		}
+	case 5:
+		switch c.fn {
+		case "first_value", "last_value", "nth_value", "lag", "lead":
+			e.ign = !c.ign
+			return e, "ignore-nulls"
+		}
+	case 6:
+		switch c.fn {
+		case "ntile", "nth_value":
+			v := *c.a1 + 1
+			e.a1 = &v
+			return e, "argument"
+		case "lag", "lead":
+			if c.a1 != nil {
+				v := *c.a1 + 1
+				e.a1 = &v
+				if c.a2 != nil && g.Intn(2) == 0 {
+					e.a1 = c.a1
+					e.a2 = value.NewString("other")
+				}
+			} else {
+				v := 2
+				e.a1 = &v
+			}
+			return e, "argument"
+		case "cells":
+			e.udf2 = !c.udf2
+			return e, "argument"
+		}
+		if strings.HasPrefix(c.fn, "agg:") && akind != aMixed { // DISTINCT over NULL and UNKNOWN depends on row order (C04's domain)
+			e.distinct = !c.distinct
+			return e, "argument"
+		}
+	}
+	return c, ""
+}
+
 func approxFn(c caseSpec) bool {
 	switch c.fn {
 	case "agg:STDEV", "agg:STDEVP", "agg:VAR", "agg:VARP":
@@ -1354,6 +1479,19 @@ func multiCheck(g *hc.Gen, o *hc.Out, pr *hc.Proc, rows [][]value.Primary, c cas
 	for len(members) < 1+nExtra {
 		var e caseSpec
 		ok := false
+		near := ""
+		if len(members) == 1 && g.Intn(2) == 0 {
+			// the same call with exactly ONE element of it changed
+			for try := 0; try < 12 && !ok; try++ {
+				e, near = mutateOne(g, c, nrows, akind)
+				ok = near != "" && orderRobust(e) && e.callSQL() != c.callSQL()
+			}
+			if ok {
+				o.Count("multi:near-identical:" + near)
+			} else {
+				near = ""
+			}
+		}
 		for try := 0; try < 30 && !ok; try++ {
 			e = genCase(g, nrows, akind)
 			ok = orderRobust(e)
@@ -1362,7 +1500,7 @@ func multiCheck(g *hc.Gen, o *hc.Out, pr *hc.Proc, rows [][]value.Primary, c cas
 			return
 		}
 		// share a PARTITION BY column with the function under test in two cases of three
-		if len(c.pcols) > 0 && g.Intn(3) != 0 {
+		if near == "" && len(c.pcols) > 0 && g.Intn(3) != 0 {
 			shared = c.pcols[g.Intn(len(c.pcols))]
 			switch g.Intn(3) {
 			case 0:
@@ -1579,6 +1717,113 @@ func derivedCases(g *hc.Gen, o *hc.Out, pr *hc.Proc, base [][]value.Primary, aki
 	}
 	src = source{from: "t", ref: "t"}
 	pr.DisposeTable("m")
+}
+
+// literalCaseCheck: analytic functions in one query that differ ONLY in the letter case of a string-literal
+// argument are different functions and must give the values each gives alone; functions that differ only in
+// the case of keywords, function names and identifiers are the same function and give the same values.
+func literalCaseCheck(g *hc.Gen, o *hc.Out, pr *hc.Proc, rows [][]value.Primary, cpu int) {
+	nrows := len(rows)
+	if nrows == 0 {
+		return
+	}
+	over := "OVER ("
+	if g.Intn(2) == 0 {
+		over += "PARTITION BY " + g.Pick("p1", "p2") + " "
+	}
+	over += "ORDER BY " + g.Pick("k1", "k2", "k1 DESC", "k2 DESC NULLS FIRST") + ", id)"
+	lit := [][2]string{{"'a'", "'A'"}, {"'dflt'", "'DFLT'"}, {"'x y'", "'X Y'"}, {"'Sep'", "'sEP'"}}[g.Intn(4)]
+	form := []string{"LAG(x, 1, %s)", "LEAD(x, 2, %s)", "LISTAGG(x, %s)", "FIRST_VALUE(%s)", "LAST_VALUE(%s)", "NTH_VALUE(%s, 1)",
+		"cellsagg2(x, %s)", "LAG(%s, 1, x)"}[g.Intn(8)]
+	if strings.HasPrefix(form, "LISTAGG") {
+		for _, r := range rows {
+			if _, ok := r[cX].(*value.String); !ok && !value.IsNull(r[cX]) {
+				if _, ok := r[cX].(*value.Integer); !ok {
+					form = "LAG(x, 1, %s)" // LISTAGG of arbitrary values is not this check's business
+				}
+			}
+		}
+	}
+	calls := []string{fmt.Sprintf(form, lit[0]) + " " + over, fmt.Sprintf(form, lit[1]) + " " + over}
+	// the first call again, in another letter case everywhere except inside the literal
+	swap := func(s string) string {
+		var sb strings.Builder
+		inLit := false
+		for _, r := range s {
+			if r == '\'' {
+				inLit = !inLit
+			}
+			switch {
+			case inLit:
+				sb.WriteRune(r)
+			case 'a' <= r && r <= 'z':
+				sb.WriteRune(r - 32)
+			case 'A' <= r && r <= 'Z':
+				sb.WriteRune(r + 32)
+			default:
+				sb.WriteRune(r)
+			}
+		}
+		return sb.String()
+	}
+	calls = append(calls, swap(calls[0]))
+	single := make([][]value.Primary, len(calls))
+	for k, call := range calls {
+		v, err := safeQuery(pr, "SELECT id, "+call+" AS r FROM t")
+		if err != nil || v.RecordLen() != nrows {
+			return
+		}
+		single[k] = make([]value.Primary, nrows)
+		for i := 0; i < nrows; i++ {
+			id := intCell(hc.ViewCell(v, i, 0))
+			if id < 0 || id >= nrows {
+				return
+			}
+			single[k][id] = hc.ViewCell(v, i, 1)
+		}
+	}
+	perm := g.Perm(len(calls))
+	cols := make([]string, len(calls))
+	for k, pi := range perm {
+		cols[k] = calls[pi] + fmt.Sprintf(" AS r%d", k+1)
+	}
+	sql := "SELECT id, " + strings.Join(cols, ", ") + " FROM t"
+	o.Count("law:literal_case")
+	o.NonTrivial("literal_case|" + form)
+	replay := func(extra map[string]interface{}) map[string]interface{} {
+		m := map[string]interface{}{"sql": sql, "table": tableText(rows), "cpu": cpu}
+		for k, v := range extra {
+			m[k] = v
+		}
+		return m
+	}
+	v, err := safeQuery(pr, sql)
+	if err != nil || v.RecordLen() != nrows {
+		lawCap(o, "analytic:literal_case_collision", replay(map[string]interface{}{"error": fmt.Sprint(err)}))
+		return
+	}
+	for i := 0; i < nrows; i++ {
+		id := intCell(hc.ViewCell(v, i, 0))
+		if id < 0 || id >= nrows {
+			lawCap(o, "analytic:literal_case_collision", replay(map[string]interface{}{"unknown_id": id}))
+			return
+		}
+		for k, pi := range perm {
+			cell := hc.ViewCell(v, i, 1+k)
+			if !sameValue(cell, single[pi][id], false) {
+				lawCap(o, "analytic:literal_case_collision", replay(map[string]interface{}{"id": id, "column": fmt.Sprintf("r%d", k+1),
+					"function": calls[pi], "in_combined_query": hc.EncVal(cell), "alone": hc.EncVal(single[pi][id]),
+					"in_combined_query_text": cell.String(), "alone_text": single[pi][id].String()}))
+				return
+			}
+		}
+		// same function in another letter case: same values
+		if !sameValue(single[0][id], single[2][id], false) {
+			lawCap(o, "analytic:literal_case_collision", replay(map[string]interface{}{"id": id, "note": "the same call in another letter case of keywords / names / identifiers gives another value",
+				"function": calls[0], "variant": calls[2], "value": hc.EncVal(single[0][id]), "variant_value": hc.EncVal(single[2][id])}))
+			return
+		}
+	}
 }
 
 func intCell(p value.Primary) int {
